@@ -117,10 +117,11 @@ def exact_instances(tier):
     U = lambda h: max(h + 2, 7)
     kinds = [("Substring", "substring"), ("Prefix", "prefix"), ("Postfix", "postfix"), ("Exact", "exact")]
     if tier == "quick":
-        sizes = {"substring": [(4, 2), (4, 3), (5, 3)], "prefix": [(4, 2), (3, 3)], "postfix": [(4, 2), (5, 3)], "exact": [(4, 2), (3, 3), (4, 3)]}
+        sizes = {"substring": [(3, 1), (4, 2), (4, 3), (5, 3)], "prefix": [(4, 2), (3, 3)], "postfix": [(4, 2), (5, 3)], "exact": [(4, 2), (3, 3), (4, 3)]}
         f1 = [(3, 1), (5, 1)]
     else:
-        allsz = [(h, n) for h in range(2, 7) for n in range(2, 4) if n <= h]
+        # (one-character needles take their own arm in every contiguous kind)
+        allsz = [(h, n) for h in range(2, 7) for n in range(1, 4) if n <= h and (n > 1 or h <= 4)]
         sizes = {k: allsz for _, k in kinds}
         f1 = [(h, 1) for h in range(2, 11)]
     k = 0
@@ -193,8 +194,8 @@ def uni_instances(tier):
             {"H": h, "N": n, "start": s, "needle": "ascii bytes" if na else "code points", "bonus_profile": "match_paths" if pa == "true" else "default"})
     # contiguous kinds + one-character arm
     kinds = [("Substring", "substring"), ("Prefix", "prefix"), ("Postfix", "postfix"), ("Exact", "exact")]
-    cs = [("Substring", "substring", 4, 2, False), ("Substring", "substring", 4, 2, True), ("Prefix", "prefix", 4, 2, False), ("Postfix", "postfix", 4, 2, True), ("Exact", "exact", 3, 3, False)] if q else \
-         [(K, kn, h, n, na) for K, kn in kinds for h in range(2, 7) for n in range(2, 4) if n <= h for na in (False, True)]
+    cs = [("Substring", "substring", 3, 1, False), ("Substring", "substring", 3, 1, True), ("Substring", "substring", 4, 2, False), ("Substring", "substring", 4, 2, True), ("Prefix", "prefix", 4, 2, False), ("Postfix", "postfix", 4, 2, True), ("Exact", "exact", 3, 3, False)] if q else \
+         [(K, kn, h, n, na) for K, kn in kinds for h in range(2, 7) for n in range(1, 4) if n <= h and (n > 1 or h <= 4) for na in (False, True)]
     for k, (K, kn, h, n, na) in enumerate(cs):
         pa = _pth(k)
         add("%s_uni_h%d_n%d_%s" % (kn, h, n, "an" if na else "un"), h,
